@@ -252,6 +252,13 @@ class CInterp(PInterp):
         return super().e_DeclRefExpr(n, env)
 
 
+    def place(self, n, env):
+        pl = super().place(n, env)
+        if isinstance(pl, ElemPlace) and isinstance(pl.arr, str) and isinstance(pl.i, int) and pl.i < 0:
+            # a text is modelled as its suffix from the scan pointer on: what stands before it is not known here
+            raise AnalysisBroken('the scanner reads a character before its scan pointer (line %d)' % n.line)
+        return pl
+
     def e_BinaryOperator(self, n, env):
         if n.opcode == '-' and all((x.dtype or x.type or '').strip().endswith('*') for x in n.inner):
             a, b = self.eval(n.inner[0], env), self.eval(n.inner[1], env)
@@ -296,15 +303,12 @@ def ctype_models():
     return m
 
 
-def scan_with_arm(P, tu, kind_name, samples, whole_body=False):
-    """Run the statement of tokenize()'s main loop that creates tokens of kind `kind_name` (new_token(kind, start, end))
-    on each concrete input text; {text: spelling of the token the arm creates | None when the arm does not fire}."""
+def first_tokens(P, tu, samples):
+    """Run the body of tokenize()'s main loop once on each concrete text (flags at_bol/has_space clear): the first token it
+    creates, {text: (TokenKind value, spelling) | None when the round makes no token}. Returns (results, line of the loop)."""
     from .lib_c09x import _explore_stmt
-    if 'tokenize' not in tu.functions:
-        raise AnalysisBroken('anchor tokenize vanished')
-    kind = tu.enums.get(kind_name)
-    if kind is None:
-        raise AnalysisBroken('token kind %s vanished' % kind_name)
+    if 'tokenize' not in tu.functions or 'new_token' not in tu.functions:
+        raise AnalysisBroken('anchor tokenize/new_token vanished')
     fn = tu.fn('tokenize')
     loops = [w for w in fn.walk() if w.kind == 'WhileStmt']
     locals_ = [d for d in fn.walk() if d.kind == 'VarDecl' and d.enclosing('WhileStmt') is None and d.enclosing('ForStmt') is None]
@@ -312,20 +316,13 @@ def scan_with_arm(P, tu, kind_name, samples, whole_body=False):
     if not loops or len(pvar) != 1:
         raise AnalysisBroken('tokenize: main loop / scan pointer not found')
     body = loops[0].inner[1]
-    stmts = body.inner if body.kind == 'CompoundStmt' else [body]
-    arms = [st for st in stmts if any(c.callee() == 'new_token' and c.args() and c.args()[0].int_value() == kind for c in st.walk() if c.kind == 'CallExpr')]
-    if len(arms) != 1:
-        raise AnalysisBroken('tokenize: %d statements of the main loop create %s tokens' % (len(arms), kind_name))
-    arm = arms[0]
-    if whole_body:
-        arm = body
     p_id = pvar[0].id
 
     def cut_new_token(it_, ctx, n_, args):
         res = Obj('Token', lazy=True, label=ctx.fresh('token'))
         ctx.emit('call', 'new_token', args, n_.line, res)
         return res
-    it = CInterp(P, tu, {'cut': {'new_token': cut_new_token}, 'models': ctype_models(), 'loop_limit': 0, 'inline_other_units': whole_body, 'rec_limit': 8})
+    it = CInterp(P, tu, {'cut': {'new_token': cut_new_token}, 'models': ctype_models(), 'loop_limit': 0, 'rec_limit': 8})
     out = {}
     for text in samples:
         def mkenv(ctx, text=text):
@@ -336,9 +333,9 @@ def scan_with_arm(P, tu, kind_name, samples, whole_body=False):
             ctx.globals['at_bol'] = 0
             ctx.globals['has_space'] = 0
             return env
-        paths = _explore_stmt(it, tu, arm, mkenv, max_paths=16)
+        paths = _explore_stmt(it, tu, body, mkenv, max_paths=16)
         if len(paths) != 1:
-            raise AnalysisBroken('the %s arm of tokenize does not evaluate to one path on the concrete text %r (%d paths)' % (kind_name, text, len(paths)))
+            raise AnalysisBroken('one round of the tokenizer loop does not evaluate to one path on the concrete text %r (%d paths)' % (text, len(paths)))
         ctx, how = paths[0]
         nt = [e for e in ctx.events if e[0] == 'call' and e[1] == 'new_token']
         if not nt:
@@ -346,9 +343,7 @@ def scan_with_arm(P, tu, kind_name, samples, whole_body=False):
             continue
         a = nt[0][2]
         k = it.settle(a[0])
-        if k != kind or not isinstance(a[1], str) or not isinstance(a[2], str) or not a[1].endswith(a[2]):
+        if not isinstance(k, int) or not isinstance(a[1], str) or not isinstance(a[2], str) or not a[1].endswith(a[2]) or a[1] != text:
             raise AnalysisBroken('new_token operands not followed on %r: %r' % (text, a))
-        spelling = a[1][:len(a[1]) - len(a[2])]
-        pv = ctx.env.get(p_id) if hasattr(ctx, 'env') else None
-        out[text] = (spelling, pv if isinstance(pv, str) else None)
-    return out, arm.line
+        out[text] = (k, a[1][:len(a[1]) - len(a[2])])
+    return out, loops[0].line
